@@ -123,6 +123,7 @@ def ellipse_families():
     for A in ({'r': [5, 3], 'phi': 2, 'th': -5, 'dl': 9, 'c': [0, 0]}, {'r': [2, 7], 'phi': 3, 'th': 9, 'dl': -13, 'c': [1, 1]},
               {'r': [5, 3], 'phi': -6, 'th': 0, 'dl': 17, 'c': [-2, 4]}, {'r': [5, 3], 'phi': 9, 'th': 4, 'dl': -8, 'c': [3, -2]},
               {'r': [2, 7], 'phi': 26, 'th': -3, 'dl': 21, 'c': [0, 0]}, {'r': [5, 5], 'phi': 3, 'th': 1, 'dl': 10, 'c': [2, 2]},
+              {'r': [5, 3], 'phi': 0, 'th': 1, 'dl': 8, 'c': [2, -1]}, {'r': [2, 7], 'phi': 0, 'th': -7, 'dl': -9, 'c': [0, 0]},
               {'r': [5, 3], 'phi': 12, 'th': 2, 'dl': 9, 'c': [0, 0]}, {'r': [5, 3], 'phi': -12, 'th': -4, 'dl': -10, 'c': [1, -1]}, {'r': [2, 7], 'phi': 36, 'th': 1, 'dl': 7, 'c': [0, 0]}):
         arc = am.concretise(A)
         n = abs(A['dl'])
@@ -135,6 +136,14 @@ def ellipse_families():
             d = 1.2 * (P - cen)
             a0 = cen + 0.4 * (P - cen)
             out.append(('A-C ellipse %s step %d' % (A, j), arc, sp.CubicBezier(a0, a0 + d / 3, a0 + 2 * d / 3, a0 + d), [(j / float(n), 0.5, P)]))
+            # a short exactly vertical / horizontal line through the lattice point (unrotated ellipses have an algebraic branch of their own for each)
+            if A['phi'] % 12 == 0:
+                tang = arc.unit_tangent(j / float(n))
+                if abs(tang.real) > 0.3:       # not (nearly) vertical there: a vertical line crosses
+                    out.append(('A-L ellipse %s step %d, vertical line' % (A, j), arc, sp.Line(P - 0.5j, P + 0.25j), [(j / float(n), 2 / 3.0, P)]))
+                    out.append(('A-L ellipse %s step %d, vertical line downwards' % (A, j), arc, sp.Line(P + 0.25j, P - 0.5j), [(j / float(n), 1 / 3.0, P)]))
+                if abs(tang.imag) > 0.3:
+                    out.append(('A-L ellipse %s step %d, horizontal line' % (A, j), arc, sp.Line(P - 0.5, P + 0.25), [(j / float(n), 2 / 3.0, P)]))
     return out
 
 
